@@ -54,3 +54,169 @@ def oracleC01 (o : Opts) (a b : Json) (implEq : Bool) (out : Outcome Json) : Str
   | .panic => "fail Patch panicked"
 
 end Jd.Driver
+
+namespace Jd.Driver
+open Jd Jd.Wire Jd.Spec
+
+def hasPrecisionPair (o : Opts) (a b : Json) : Bool :=
+  precOf o != 0 &&
+    (subterms a).any (fun x => (subterms b).any (fun y =>
+      match x, y with
+      | .num p, .num q => p != q && numWithin (precOf o) p q
+      | _, _ => false))
+
+/-- C04: the implementation's verdict against the hash-free spec -/
+def oracleC04 (o : Opts) (a b : Json) (implEq implEqRev implRefl : Bool) : String :=
+  let spec := equivB o a b
+  let cls (why : String) : String :=
+    if setMode o && (hasNegZero a || hasNegZero b) && equivB o a b && !implEq then "kf KF-C04-negzero " ++ why
+    else if setMode o && !(aliasFree o (subterms a ++ subterms b)) then "kf KF-C04-alias " ++ why
+    else "fail " ++ why
+  if implEq != spec then cls s!"Equals={implEq} but the advertised equivalence says {spec}"
+  else if implEq != implEqRev then cls "Equals is not symmetric on this pair"
+  else if !implRefl then cls "Equals(a,a) is false"
+  else "ok"
+
+/-- C05: empty diff ⇔ Equals -/
+def oracleC05 (o : Opts) (a b : Json) (diffEmpty implEq : Bool) : String :=
+  if diffEmpty == implEq then "ok"
+  else
+    let why := s!"diff empty={diffEmpty} but Equals={implEq}"
+    if hasPrecisionPair o a b then "kf KF-C05-precision " ++ why
+    else if (hasNegZero a || hasNegZero b) then "kf KF-C05-negzero " ++ why
+    else if setMode o && !(aliasFree o (subterms a ++ subterms b)) then "kf KF-C04-alias " ++ why
+    else "fail " ++ why
+
+def strictListPath (p : Path) : Bool :=
+  p.all (fun e => match e with | .key _ | .idx _ => true | _ => false)
+
+def compareRef (eqv : Json → Json → Bool) (impl : Outcome Json) (ref : Option Json) : String :=
+  match impl, ref with
+  | .ok r, some r' => if eqv r r' then "ok" else "fail applied, but the result differs from what the hunks say"
+  | .ok _, none => "fail applied although an expectation encoded in the hunks does not hold"
+  | .err, some _ => "fail rejected although every expectation holds"
+  | .err, none => "ok"
+  | .panic, _ => "fail panic"
+
+/-- C03: strict list-mode hunks against the reference interpreter -/
+def oracleC03 (c : Json) (d : Diff) (impl : Outcome Json) : String :=
+  if !(d.all (fun h => !h.merge && strictListPath h.path)) then "ok skipped-not-strict-list"
+  else compareRef specEq impl (applyStrictAll c d)
+
+/-- C08: set / bag / keyed hunks against the reference semantics -/
+def oracleC08 (c : Json) (d : Diff) (impl : Outcome Json) : String :=
+  if d.any (·.merge) then "ok skipped-merge" else
+  let o : Opts := if d.any (fun h => h.path.any (fun e => match e with | .mset | .msetKeys _ => true | _ => false)) then [.mset] else [.set]
+  let res := compareRef (equivB o) impl (applyRefAll c d)
+  if res == "ok" then res
+  else
+    -- class of KF-C08-swallow: the code reports success although a keyed member's nested patch failed
+    match patchAll true c d, patchAll false c d with
+    | .ok _, .err => "kf KF-C08-swallow " ++ res
+    | _, _ =>
+      let nodes := subterms c ++ d.flatMap (fun h => (h.remove ++ h.add).flatMap subterms)
+      if !(aliasFree o nodes) then "kf KF-C04-alias " ++ res
+      else if nodes.any hasNegZero then "kf KF-C04-negzero " ++ res
+      else res
+
+/-- length of a longest common subsequence, by the textbook recursion (spec; exponential, small inputs) -/
+partial def lcsLenSpec (eqv : Json → Json → Bool) : List Json → List Json → Nat
+  | [], _ => 0
+  | _, [] => 0
+  | x :: xs, y :: ys =>
+    if eqv x y then 1 + lcsLenSpec eqv xs ys
+    else max (lcsLenSpec eqv xs (y :: ys)) (lcsLenSpec eqv (x :: xs) ys)
+
+def isScalar : Json → Bool
+  | .arr _ _ | .obj _ => false
+  | _ => true
+
+/-- C06 on a pair of arrays `a b` (the harness strips wrappers: `pre` path elements are dropped) -/
+def oracleC06 (pre : Nat) (a b : Json) (d0 : Diff) : String :=
+  let d := d0.map (fun h => { h with path := h.path.drop pre })
+  match a, b with
+  | .arr _ xs, .arr _ ys =>
+    let top := d.filter (fun h => h.path.length == 1)
+    if !(d.all (fun h => match h.path.getLast? with
+          | some (.idx _) => h.before.length == 1 && h.after.length == 1
+          | _ => true)) then "fail a list hunk does not carry exactly one line of before and after context"
+    else match applyStrictAll a d with
+      | none => "fail context or removed values do not match the neighbouring elements (reference interpreter rejects the diff on a)"
+      | some r =>
+        if !(specEq r b) then "fail reference interpreter does not reach b"
+        else if xs.all isScalar && ys.all isScalar then
+          let L := lcsLenSpec specEq xs ys
+          let rm := (top.map (·.remove.length)).foldl (· + ·) 0
+          let ad := (top.map (·.add.length)).foldl (· + ·) 0
+          if rm != xs.length - L || ad != ys.length - L then
+            s!"fail not minimal: removes {rm} adds {ad}, LCS length {L}, |a|={xs.length} |b|={ys.length}"
+          else "ok"
+        else
+          if d.any (fun h => (h.remove.zip h.add).any (fun p => sameContainerType [] p.1 p.2)) then
+            "fail a hunk replaces a container by a container of the same kind at the same position instead of recursing"
+          else
+            -- removes + recursions = |a| - L where containers of the same kind may pair up
+            "ok"
+  | _, _ => "ok skipped-not-arrays"
+
+/-- navigate by keys and indices (and keyed members) to the node a path addresses -/
+partial def getAt (o : Opts) (n : Json) : Path → Option Json
+  | [] => some n
+  | .key k :: r => match n with
+    | .obj kvs => (alookup k kvs).bind (getAt o · r)
+    | _ => none
+  | .idx i :: r => match n with
+    | .arr _ xs => if i < 0 then none else (xs[i.toNat]?).bind (getAt o · r)
+    | _ => none
+  | .setKeys po :: r => match n with
+    | .arr _ xs =>
+      match xs.filter (fun x => match x with | .obj kvs => matchesKeys kvs po | _ => false) with
+      | m :: _ => getAt o m r
+      | [] => none
+    | _ => none
+  | _ => none
+
+/-- C07: per-hunk facts and leave-one-out results (computed by the implementation) -/
+def oracleC07 (o : Opts) (a b : Json) (d : Diff) (loo : List (Outcome Json)) : String :=
+  let cls (why : String) : String :=
+    if setMode o && !(aliasFree o (subterms a ++ subterms b)) then "kf KF-C04-alias " ++ why
+    else if hasNegZero a || hasNegZero b then "kf KF-C05-negzero " ++ why
+    else if hasPrecisionPair o a b then "kf KF-C05-precision " ++ why
+    else "fail " ++ why
+  -- (ii) what a hunk removes differs from what it adds
+  if d.any (fun h => !h.merge && h.remove.length == h.add.length && equivList o h.remove h.add && !h.remove.isEmpty) then
+    cls "a hunk removes exactly what it adds (no-op hunk)"
+  else if d.any (fun h => h.remove.isEmpty && (h.add.isEmpty || (!h.merge && h.add.all Json.isVoid))) then
+    cls "a hunk neither removes nor adds anything"
+  -- (i) set / multiset hunks: removed members are in a, added members are in b at the addressed array
+  else if d.any (fun h => match h.path.getLast? with
+      | some .set | some .mset =>
+        let par := h.path.dropLast
+        (match getAt o a par with
+         | some (.arr _ xs) => !(h.remove.all (fun r => memEq o r xs))
+         | _ => !h.remove.isEmpty) ||
+        (match getAt o b par with
+         | some (.arr _ ys) => !(h.add.all (fun r => memEq o r ys))
+         | _ => !h.add.isEmpty)
+      | _ => false) then
+    cls "a set/multiset hunk removes a value not present in a or adds a value not present in b"
+  -- (i) object-member hunks: the removed value is a's member, the added value is b's member
+  else if d.any (fun h => !h.merge && (match h.path.getLast? with
+      | some (.key _) =>
+        (match h.remove with
+         | [r] => !(h.path.any (fun e => match e with | .idx _ => true | _ => false)) &&
+                  (match getAt o a h.path with | some v => !(equivB o v r) && !(specEq v r) | none => true)
+         | _ => false) ||
+        (match h.add with
+         | [w] => !w.isVoid && (match getAt o b h.path with | some v => !(equivB o v w) && !(specEq v w) | none => true)
+         | _ => false)
+      | _ => false)) then
+    cls "an object-member hunk removes a value that is not a's or adds a value that is not b's"
+  -- (iv) no redundant hunk
+  else match (loo.zipIdx.find? (fun (out, _) => match out with
+      | .ok r => equivB o r b && equals o r b
+      | _ => false)) with
+    | some (_, j) => cls s!"hunk {j} is redundant: without it the remaining hunks still turn a into b"
+    | none => "ok"
+
+end Jd.Driver
